@@ -1,12 +1,14 @@
 """C16 - HTTP/2 requests and responses are decoded as RFC 7540/7541 define them.
 
-Structural clauses decided (DESIGN.md §5 C16):
+Structural clauses decided:
  R1 the HEADERS frame flags (PADDED 0x8, PRIORITY 0x20) are consulted before the payload is handed to HPACK
  R2 the header block fragments of HEADERS + CONTINUATION are joined before decoding (not one decode per frame)
  R3 pseudo-header routing (:method/:path/:authority/:scheme/:status -> like-named field); required fields
- R4 header-name comparisons agree on case folding (lower-cased names are compared with lower-case lists)
+ R4 header-name comparisons agree on case folding; every decoded header counts as present; request conversions pass
+    is_request = true, response conversions false
  R5 frame splitter guards: 9-byte header, length <= max_frame_size, completeness before the payload is sliced;
-    stream id masks the reserved bit; length is the 24-bit big-endian prefix
+    stream id masks the reserved bit; length is the 24-bit big-endian prefix; primary stream = first HEADERS on a stream > 0
+ C07.R1 the shared HPACK decoder is re-created before each message; C05.R8 cookie pairs divided at the first `=`
 """
 from ..engine import cfg as C
 from ..engine import q as Q
